@@ -492,7 +492,10 @@ def unary_op(op, a):
     raise ValueError(op)
 
 
-def _eval(expr, variables, functions):
+def _eval(expr, variables, functions, thru=False):
+    """thru=False: an UNSPECIFIED sub-result aborts the evaluation (_Unspec). thru=True: it flows on as a value through
+    everything that evaluates its operands unconditionally (so the effects of later operands still happen in the
+    reference, in order), and aborts only where the *choice of what to evaluate* would depend on it (&&, ||, if)."""
     (key, val), = expr.items()
     if key == 'number':
         return val
@@ -507,36 +510,47 @@ def _eval(expr, variables, functions):
             return False
         return variables.get(val)
     if key == 'group':
-        return _eval(val, variables, functions)
+        return _eval(val, variables, functions, thru)
     if key == 'unary':
-        return _known(unary_op(val['op'], _eval(val['expr'], variables, functions)))
+        operand = _eval(val['expr'], variables, functions, thru)
+        if operand is UNSPECIFIED:
+            return UNSPECIFIED
+        return _known(unary_op(val['op'], operand), thru)
     if key == 'binary':
         op = val['op']
-        left = _eval(val['left'], variables, functions)
-        if op == '&&':
-            return _eval(val['right'], variables, functions) if rv.truthy(left) else left
-        if op == '||':
-            return left if rv.truthy(left) else _eval(val['right'], variables, functions)
-        right = _eval(val['right'], variables, functions)
-        return _known(binary_op(op, left, right))
+        left = _eval(val['left'], variables, functions, thru)
+        if op in ('&&', '||'):
+            if left is UNSPECIFIED:
+                raise _Unspec()
+            if op == '&&':
+                return _eval(val['right'], variables, functions, thru) if rv.truthy(left) else left
+            return left if rv.truthy(left) else _eval(val['right'], variables, functions, thru)
+        right = _eval(val['right'], variables, functions, thru)
+        if left is UNSPECIFIED or right is UNSPECIFIED:
+            return UNSPECIFIED
+        return _known(binary_op(op, left, right), thru)
     if key == 'function':
         name = val['name']
         args = val.get('args', [])
         if name == 'if':
-            cond = _eval(args[0], variables, functions) if len(args) >= 1 else False
+            cond = _eval(args[0], variables, functions, thru) if len(args) >= 1 else False
+            if cond is UNSPECIFIED:
+                raise _Unspec()
             if rv.truthy(cond):
-                return _eval(args[1], variables, functions) if len(args) >= 2 else None
-            return _eval(args[2], variables, functions) if len(args) >= 3 else None
-        values = [_eval(a, variables, functions) for a in args]     # left to right, each exactly once
+                return _eval(args[1], variables, functions, thru) if len(args) >= 2 else None
+            return _eval(args[2], variables, functions, thru) if len(args) >= 3 else None
+        values = [_eval(a, variables, functions, thru) for a in args]     # left to right, each exactly once
         func = functions.get(name)
         if func is None:
             raise RefUndefinedFunction(name)
-        return _known(func(values))
+        if any(v is UNSPECIFIED for v in values):
+            return UNSPECIFIED        # the call is not modelled (callers pass effect-free functions in such positions)
+        return _known(func(values), thru)
     raise ValueError(f'not an expression model: {key!r}')
 
 
-def _known(v):
-    if v is UNSPECIFIED:
+def _known(v, thru=False):
+    if v is UNSPECIFIED and not thru:
         raise _Unspec()
     return v
 
@@ -549,6 +563,17 @@ def evaluate(expr, variables=None, functions=None):
         return _eval(expr, variables or {}, functions or {})
     except _Unspec:
         return UNSPECIFIED
+
+
+def evaluate_effects(expr, variables=None, functions=None):
+    """(value or UNSPECIFIED, complete). Like evaluate, but an UNSPECIFIED operator result does not stop the reference:
+    the remaining operands and arguments are still evaluated in the documented order, so the *effects* (which calls
+    happen, in which order, how often) stay comparable even when the value is not. complete=False: a lazy construct
+    (&&, ||, if) had to decide on an UNSPECIFIED value - the effects after that point are not defined either."""
+    try:
+        return _eval(expr, variables or {}, functions or {}, True), True
+    except _Unspec:
+        return UNSPECIFIED, False
 
 
 # ---------------------------------------------------------------------------------------------------------------------
@@ -618,3 +643,7 @@ def selftest():
     assert evaluate({'function': {'name': 'if', 'args': [num(0), num(3)]}}) is None
     assert evaluate(_b('+', _b('/', num(1), num(0)), num(1))) is UNSPECIFIED
     assert evaluate(_b('+', {'variable': 'x'}, {'variable': 'true'}), {'x': 'v'}) == 'vtrue'
+    del log[:]
+    assert evaluate_effects(_b('>=', _b('/', call(num(1)), call(num(0))), call(num(2))), {}, funcs) == (UNSPECIFIED, True) and log == [1, 0, 2]
+    del log[:]
+    assert evaluate_effects(_b('&&', _b('%', call(num(1)), call(num(0))), call(num(2))), {}, funcs) == (UNSPECIFIED, False) and log == [1, 0]
